@@ -124,9 +124,9 @@ PROPS["C09"] = dict(
     explanation=MIX)
 
 PROPS["C17"] = dict(
-    level="other", claimed=True,
-    technique="bounded stand-in only: the real functions executed natively over an enumerated space and compared with a reference written in the check; no deductive obligation could be generated for these functions (see level_text), so nothing is counted as proved",
-    level_text="Bounded stand-in only (native execution of the real constraint evaluator and composition-polynomial code against "
+    level="other", claimed=True, verus=True,
+    technique="contract-based deductive verification for the two integer-level building blocks within reach (Verus on the extracted bodies of TransitionConstraints::new and ConstraintDivisor::evaluate_at); everything else - the evaluators, the periodic table, boundary groups, the composition polynomial itself - is a bounded stand-in only: the real functions executed natively over an enumerated space and compared with the definition written in the check",
+    level_text="Verus (unit divisorv, bodies cut out of /repo): TransitionConstraints::new hands the composition coefficients out in order (main constraints first, then auxiliary), keeps the context degrees and builds the divisor of the context exemption count, for every number of constraints; ConstraintDivisor::evaluate_at is the in-order product of the numerator terms over the exemption product. Everything else is a bounded stand-in (native execution of the real constraint evaluator and composition-polynomial code against "
                "the definition computed directly in the check from the trace polynomials, the constraint formulas, the documented "
                "divisors and naively interpolated value polynomials). No deductive contract: the evaluator, periodic table and "
                "boundary groups are generic over a user Air with iterator-heavy bodies, and the statement is an identity over "
